@@ -64,6 +64,14 @@ def run_shard(params, rec):
                     rec.count("raised")
                 simps[cfg] = fresh(cfg)
                 continue
+            except RecursionError:
+                # unbounded recursion is how non-termination surfaces in this engine
+                rule = simp_lib.raising_rule(sys.exc_info()[2])
+                rec.fail("unbounded recursion rule=%s on %s" % (rule, simp_lib.pattern(e)),
+                         "%s: simplification of %s recurses without bound" % (cfg, common.short(e)),
+                         dict(expr=repr(e), config=cfg))
+                simps[cfg] = fresh(cfg)
+                continue
             except Exception:
                 rec.count("raised")   # C01's business
                 simps[cfg] = fresh(cfg)
